@@ -46,17 +46,20 @@
    six functors, plain / compound / noalias operator forms, mixed dense/sparse, both matrix orientations, nine shapes
    of sparse right-hand-side expressions) are run by harness/c01_sparse.cpp and by the extracted C01SparseExec.run_cmd and compared exactly INCLUDING capacities and the
    stored index sequences, with an independent monitor of the storage invariant and of the element-wise meaning.
+     * DENSE BLOCKED ASSIGNMENT KERNELS with transposition (C01BlockModel.v, loop nest as coded, every block size and
+       shape): C01_dense_blocked_kernel_correct; run next to kernels::assign(dense, dense of the other orientation)
+       by the sparse harness (commands DKA / DKF, shapes around the 8 x 8 / 16 x 16 blocking);
    NOT PROVED (executable and compared on every run only): the statement level C01SparseExec.v (which kernel an
    operator form calls: temporaries of the plain forms, `-=` as `+=` of (-1)*e, the defaulted copy assignment) - the
    theorems are about the kernels and iterators it composes; prod(sparse matrix, vector), row/column proxies of
-   compressed matrices and sparse reductions are not modelled; dense block kernels, OpenBLAS.
+   compressed matrices and sparse reductions are not modelled; the blocked PRODUCT kernels (gemm/gemv), OpenBLAS.
    Observations recorded by the sparse stream, not violations of the property as modelled: `x op= scalar` on a sparse
    target touches stored elements only (C01_sparse_scalar_stored_only); compressed = expression (sparse.hpp:131),
    compressed_matrix = matrix of the other orientation (sparse.hpp:243), compressed_matrix = dense matrix and
    `x -= a*b` with sparse a, b (compose functor lacks left/right_zero_remains) do not compile.
    `vden`/`mden` ARE the documented meaning (quickref/remora.rst), written as Gallina. *)
 From Coq Require Import ZArith List Bool Arith Lia.
-From SharkV Require Import C01Model C01Proofs C01Opt C01OptProofs C01SparseModel C01SparseProofs C01SparseFunProofs C01SparseMatModel C01SparseMatProofs C01SparseExpr C01SparseExprProofs.
+From SharkV Require Import C01Model C01Proofs C01Opt C01OptProofs C01SparseModel C01SparseProofs C01SparseFunProofs C01SparseMatModel C01SparseMatProofs C01SparseExpr C01SparseExprProofs C01BlockModel C01BlockProofs.
 Import ListNotations.
 Open Scope Z_scope.
 
@@ -631,3 +634,23 @@ Theorem C01_sparse_expression_add_before_repair_refuted :
   sx_stream true env (SXAdd (SXRef 0) (SXRef 1)) = [(2%nat, -1); (3%nat, -4)].
 Proof. exact sx_add_before_repair_refuted. Qed.
 Print Assumptions C01_sparse_expression_add_before_repair_refuted.
+
+(* ======================================================================================================
+   DENSE BLOCKED KERNELS for operands of opposite orientation (C01BlockModel.v: the loop nest of
+   matrix_assign / matrix_assign_functor (row_major, column_major, dense, dense) as coded - block loops with partial
+   last blocks, transposed fill of the block buffer, write-back): for EVERY block size >= 1 (the code uses 8 and 16),
+   every shape incl. 0 x k and shapes that are not multiples of the block size, every functor and every initial
+   content of the block buffer, the result is f(m(i,j), e(i,j)) inside the shape and m outside.
+   ====================================================================================================== *)
+Theorem C01_dense_blocked_kernel_correct :
+  forall (bs : nat) (f : Z -> Z -> Z) (size1 size2 : nat) (e m : fmat), (1 <= bs)%nat ->
+  forall a b, blk_kernel bs f size1 size2 e m a b =
+              if (a <? size1)%nat && (b <? size2)%nat then f (m a b) (e a b) else m a b.
+Proof. exact blk_kernel_correct. Qed.
+Print Assumptions C01_dense_blocked_kernel_correct.
+
+Example C01_dense_blocked_kernel_examples :
+  blk_kernel 16 Z.add 17 3 (fun i j => Z.of_nat (i + j)) (fun i j => Z.of_nat (i * j)) 16 2 = 34 /\
+  blk_kernel 8 (fun _ y => y) 0 5 (fun _ _ => 7) (fun _ _ => 1) 0 0 = 1 /\
+  blk_kernel 2 Z.mul 3 3 (fun i j => Z.of_nat (i + 1)) (fun i j => Z.of_nat (j + 1)) 2 2 = 9.
+Proof. repeat split; vm_compute; reflexivity. Qed.
